@@ -132,8 +132,8 @@ func baseWeights() map[string]int {
 
 // C05: wait-list admission follows queue_limit and queue_strategy exactly.
 func TestC05(t *testing.T) {
-	cfg := &Cfg{Prop: "C05", MaxPipelines: 2, MaxTasks: 2, DelayPct: 35, ReplacePct: 40, CyclicPct: 8, ReservedPct: 12,
-		LimitChoices: []int{-1, 0, 1, 1, 2, 2, 3}, Weights: map[string]int{"schedule": 45, "cancel": 15, "finish": 22, "timer": 12, "hold": 2, "release": 4, "reload": 4},
+	cfg := &Cfg{Prop: "C05", MaxPipelines: 2, MaxTasks: 2, DelayPct: 35, ReplacePct: 40, CyclicPct: 8, ReservedPct: 12, Retention: true,
+		LimitChoices: []int{-1, 0, 1, 1, 2, 2, 3}, Weights: map[string]int{"schedule": 45, "cancel": 15, "finish": 22, "timer": 12, "hold": 2, "release": 4, "reload": 4, "save": 2, "saveRetention": 3},
 		ReloadKinds: []string{"limit", "limit", "strategy", "conc", "delay"},
 		Armed:       map[string]bool{"C05": true}}
 	runHistories(t, histOpts{cfg: cfg, failPct: 15,
@@ -145,8 +145,8 @@ func TestC05(t *testing.T) {
 
 // C01: per-pipeline concurrency limit is never exceeded.
 func TestC01(t *testing.T) {
-	cfg := &Cfg{Prop: "C01", MaxPipelines: 2, MaxTasks: 3, DelayPct: 30, ReplacePct: 25, CyclicPct: 12, ReservedPct: 12, AllowFailPct: 15, ContinuePct: 30,
-		LimitChoices: []int{-1, -1, -1, 2, 3, 1}, Weights: map[string]int{"schedule": 36, "cancel": 9, "finish": 30, "timer": 10, "hold": 4, "release": 6, "reload": 5, "scheduleCompleting": 4, "save": 3},
+	cfg := &Cfg{Prop: "C01", MaxPipelines: 2, MaxTasks: 3, DelayPct: 30, ReplacePct: 25, CyclicPct: 12, ReservedPct: 12, AllowFailPct: 15, ContinuePct: 30, Retention: true,
+		LimitChoices: []int{-1, -1, -1, 2, 3, 1}, Weights: map[string]int{"schedule": 36, "cancel": 9, "finish": 30, "timer": 10, "hold": 4, "release": 6, "reload": 5, "scheduleCompleting": 4, "save": 3, "saveRetention": 2},
 		Armed: map[string]bool{"C01": true}}
 	runHistories(t, histOpts{cfg: cfg, failPct: 20,
 		rule: "stateful rapid histories incl. reload (limits raised/lowered, pipelines removed and defined again) and saves in between (which remove the jobs of a pipeline that is not defined), reserved-variable and cyclic jobs, hold/release, failures, out-of-order timers, schedule requests while a job completes; invariants evaluated at every event of the task-runner log: jobs executing after each start <= concurrency in force, every task interval inside its job's executing span, completion reported only with no task open, no second start, no start of a job that a save had removed while it waited; non-trivial = the limit was binding (a request queued or rejected while jobs ran) and a queued job was started later; distinct by action trace",
@@ -158,7 +158,7 @@ func TestC01(t *testing.T) {
 // C02: tasks run at most once and only after their dependencies succeeded.
 func TestC02(t *testing.T) {
 	cfg := &Cfg{Prop: "C02", MaxPipelines: 2, MaxTasks: 8, DelayPct: 10, ReplacePct: 10, CyclicPct: 25, ReservedPct: 8, AllowFailPct: 25, ContinuePct: 50, EmptyPct: 10,
-		LimitChoices: []int{-1, -1, -1, 2, 3}, Weights: map[string]int{"schedule": 20, "cancel": 3, "finish": 60, "timer": 6, "hold": 3, "release": 5},
+		LimitChoices: []int{-1, -1, -1, 2, 3}, Weights: map[string]int{"schedule": 20, "cancel": 3, "finish": 60, "timer": 6, "hold": 3, "release": 5, "reload": 3, "save": 1},
 		Armed: map[string]bool{"C02": true}}
 	runHistories(t, histOpts{cfg: cfg, failPct: 25,
 		rule:       "generated task graphs (1-8 tasks: chains, diamonds, fan-in/out, independent, empty scripts, duplicate depends_on, 25% cyclic) x generated completion order and outcomes, with sibling jobs before/after; oracle over the runner log: each (job,task) enters Run at most once and only after every dependency exited ok (or failed under allow_failure); a job reported successful ran every task; acyclic+all ok => plain success; cyclic => no task, canceled with error; non-trivial = a job with >=4 tasks and a task with >=2 dependencies (diamond/fan-in) ran, or a cyclic job was accepted; distinct by action trace",
@@ -180,7 +180,7 @@ func TestC03(t *testing.T) {
 // C04: an acknowledged cancel always takes effect and is never lost.
 func TestC04(t *testing.T) {
 	cfg := &Cfg{Prop: "C04", MaxPipelines: 2, MaxTasks: 4, DelayPct: 30, ReplacePct: 15, AllowFailPct: 25, ContinuePct: 30,
-		LimitChoices: []int{-1, -1, 2, 3}, Weights: map[string]int{"schedule": 26, "cancel": 22, "finish": 28, "timer": 8, "hold": 10, "release": 8, "shutdown": 2, "cancelCompleting": 5},
+		LimitChoices: []int{-1, -1, 2, 3}, Weights: map[string]int{"schedule": 26, "cancel": 22, "finish": 28, "timer": 8, "hold": 10, "release": 8, "shutdown": 2, "cancelCompleting": 5, "reload": 3, "save": 2},
 		Armed: map[string]bool{"C04": true}}
 	runHistories(t, histOpts{cfg: cfg, failPct: 12,
 		rule: "histories with a high weight of hold/cancel so that cancels land on waiting jobs (with/without pending timer), running jobs with any subset of tasks finished, the gap between two tasks (hold -> finish -> cancel -> release), repeated cancels, finished/canceled/unknown ids, cancels that arrive while a graceful shutdown is waiting for the running jobs, and cancels that arrive while the job completes (last task done, runner held inside Finish; the request may be refused, but if it is acknowledged it counts); oracle: return value per state, no start after a waiting cancel, Cancel() delivered to the runner of a running job, final report canceled after every acknowledged cancel of an unfinished job (never a plain success), finished jobs unchanged; non-trivial = a cancel acknowledged for a running multi-task job while none of its tasks was executing, or for a job with pending delay; distinct by action trace",
@@ -191,11 +191,11 @@ func TestC04(t *testing.T) {
 
 // C06: queued jobs start in the order they were accepted.
 func TestC06(t *testing.T) {
-	cfg := &Cfg{Prop: "C06", MaxPipelines: 1, MaxTasks: 2, DelayPct: 35, ReplacePct: 20, CyclicPct: 8, ReservedPct: 12, Retention: true,
-		LimitChoices: []int{-1, -1, -1, 3}, Weights: map[string]int{"schedule": 40, "cancel": 12, "finish": 30, "timer": 14, "hold": 2, "release": 3, "scheduleCompleting": 6, "saveRetention": 5},
+	cfg := &Cfg{Prop: "C06", MaxPipelines: 2, MaxTasks: 2, DelayPct: 35, ReplacePct: 20, CyclicPct: 8, ReservedPct: 12, Retention: true,
+		LimitChoices: []int{-1, -1, -1, 3}, Weights: map[string]int{"schedule": 40, "cancel": 12, "finish": 30, "timer": 14, "hold": 2, "release": 3, "scheduleCompleting": 6, "saveRetention": 5, "reload": 4},
 		Armed: map[string]bool{"C06": true}}
 	runHistories(t, histOpts{cfg: cfg, failPct: 20,
-		rule: "single-pipeline histories without reload, queue unbounded or 3, concurrency 1-3, cancels of head/middle/tail, unstartable heads, failures, timers fired out of order, schedule requests that arrive while a job of the pipeline completes (last task done, runner held inside Finish), retention settings with saves in between (finished jobs disappear from the runner's lists while others wait); oracle at every observed start of a job: no earlier-accepted job of the pipeline is still waiting (accepted, not started, not canceled); non-trivial = >=3 jobs waited at once, >=1 of them was canceled or could not start, and >=2 waited jobs started later; distinct by action trace",
+		rule: "histories over one or two pipelines, with reloads (the order is only promised among jobs accepted under the pipeline's current definition - a reload that edits another pipeline leaves it in force), queue unbounded or 3, concurrency 1-3, cancels of head/middle/tail, unstartable heads, failures, timers fired out of order, schedule requests that arrive while a job of the pipeline completes (last task done, runner held inside Finish), retention settings with saves in between (finished jobs disappear from the runner's lists while others wait); oracle at every observed start of a job: no earlier-accepted job of the pipeline is still waiting (accepted, not started, not canceled); non-trivial = >=3 jobs waited at once, >=1 of them was canceled or could not start, and >=2 waited jobs started later; distinct by action trace",
 		nontrivial: func(c map[string]int) bool {
 			return c["waiting>=3"] > 0 && (c["cancel:waiting"] > 0 || c["bad-waited"] > 0) && c["dequeue-start"] >= 2
 		}})
@@ -216,7 +216,7 @@ func TestC07Sim(t *testing.T) {
 func TestC08(t *testing.T) {
 	cfg := &Cfg{Prop: "C08", MaxPipelines: 2, MaxTasks: 6, DelayPct: 5, ReplacePct: 5, AllowFailPct: 30, ContinuePct: 50, EmptyPct: 5,
 		Shapes:       []string{"random", "random", "dense", "layered", "diamond"},
-		LimitChoices: []int{-1, -1, 2}, Weights: map[string]int{"schedule": 18, "cancel": 4, "finish": 60, "timer": 3, "hold": 6, "release": 7},
+		LimitChoices: []int{-1, -1, 2}, Weights: map[string]int{"schedule": 18, "cancel": 4, "finish": 60, "timer": 3, "hold": 6, "release": 7, "reload": 2, "save": 1},
 		Armed: map[string]bool{"C08": true}}
 	runHistories(t, histOpts{cfg: cfg, failPct: 35,
 		rule:       "generated graph x per-task outcome (ok / exit N / exit N under allow_failure) x fail-fast on/off x completion order incl. gaps (hold); oracle: no task with a failed non-allowed ancestor runs; fail-fast => Cancel() reaches the runner, job ends with an error; continue => no Cancel(), everything independent runs, not canceled; plain success only if every task ran ok or failed under allow_failure; no task reported running after completion; allow_failure does not fail the job; task-level report agrees with the delivered outcome; non-trivial = a non-allowed failure in a job with >=3 tasks, or an allowed failure with a dependent; distinct by action trace",
@@ -273,7 +273,7 @@ func TestC12(t *testing.T) {
 // C11 (simulated part): shutdown leaves only terminal jobs and a store that matches them.
 func TestC11Sim(t *testing.T) {
 	cfg := &Cfg{Prop: "C11", MaxPipelines: 2, MaxTasks: 4, DelayPct: 30, ReplacePct: 15, AllowFailPct: 15, ContinuePct: 30,
-		LimitChoices: []int{-1, -1, 2, 3}, Weights: map[string]int{"schedule": 34, "cancel": 6, "finish": 22, "timer": 8, "hold": 8, "release": 4, "shutdown": 9},
+		LimitChoices: []int{-1, -1, 2, 3}, Weights: map[string]int{"schedule": 34, "cancel": 6, "finish": 22, "timer": 8, "hold": 8, "release": 4, "shutdown": 9, "reload": 3, "save": 2},
 		Armed: map[string]bool{"C11": true}, ShutdownAtEnd: true}
 	runHistories(t, histOpts{cfg: cfg, failPct: 15,
 		rule:       "a generated history builds the pre-state (running multi-task jobs with tasks still to be launched, held scheduler loops, waiting and delayed jobs, finished ones); then Shutdown runs in a goroutine, graceful or forced (context canceled before the call or after k further task completions), with a schedule request racing its start; while it is in progress the harness keeps finishing tasks in generated order/outcomes, releases loops, and issues schedule and save requests; oracle at return: no job running or waiting, no task executing, the last snapshot the store received equals the reported state of every job, requests during/after are refused (ErrShuttingDown, HTTP 503) without effect, a raced accepted request is terminal; graceful => no stop request reaches a runner because of the shutdown and every running job ends as its outcomes imply, waiting jobs canceled and never run; forced => running jobs are told to stop, context error returned, never a plain success with unrun tasks; non-trivial = at the start of the shutdown a job was running with an unlaunched task and a job was waiting; distinct by action trace",
